@@ -272,6 +272,18 @@ def cog_rules(F, R, tier):
     neg_num = num_t[0] == 'op' and num_t[1] == 'neg'
     if neg_num:
         num_t = num_t[2][0]
+    # accepted sign shapes:  (−Σk·x)/Σx + C   or   C − (Σk·x)/Σx
+    sub_form = any(x[0] == 'op' and x[1] == 'sub' and x[2][1] == ratio for x in subterms(out_t))
+    add_form = any(x[0] == 'op' and x[1] == 'add' and ratio in x[2] for x in subterms(out_t))
+    sign_ok = neg_num if not sub_form else (not neg_num and not add_form)
+
+    def half_of(o):
+        """X when o is X/2 or 0.5·X, else None."""
+        if o[0] == 'op' and o[1] == 'div' and o[2][1] == lit(2.0):
+            return o[2][0]
+        if o[0] == 'op' and o[1] == 'mul' and lit(0.5) in o[2]:
+            return o[2][1] if o[2][0] == lit(0.5) else o[2][0]
+        return None
     nmax = 8 if tier == 'quick' else 24
     good = True
     why = ''
@@ -304,7 +316,7 @@ def cog_rules(F, R, tier):
         if set(num) - set(atoms) - {'1'} or set(den) - set(atoms) - {'1'}:
             good, why = False, 'n=%d: sums include values outside the window: %s' % (n, sorted((set(num) | set(den)) - set(atoms))[:3])
             break
-    R.ob('COG-W', 'CenterOfGravity', good and neg_num, 'weight of the k-th newest value is k (newest 1), the same values feed numerator and denominator (full windows n = 1..%d and filling windows)' % nmax if good and neg_num else (why or 'numerator is not negated'), v.file)
+    R.ob('COG-W', 'CenterOfGravity', good and sign_ok, 'weight of the k-th newest value is k (newest 1), the same values feed numerator and denominator (full windows n = 1..%d and filling windows)' % nmax if good and sign_ok else (why or 'the weighted ratio does not enter with a negative sign'), v.file)
     # the constant term must use the number of values currently in the window
     okn = True
     for (entry_len, N) in configs[:6] + configs[-4:]:
@@ -312,9 +324,9 @@ def cog_rules(F, R, tier):
         ev = LinEval(st, m.up_vg.loops)
         n_now = entry_len if entry_len >= N else entry_len + 1
         for x in subterms(out_t):
-            if x[0] == 'op' and x[1] == 'div' and x[2][1] == lit(2.0):
+            if half_of(x) is not None:
                 try:
-                    c = ev.ev(x[2][0])
+                    c = ev.ev(half_of(x))
                     if isinstance(c, Form) and c.is_const() and abs(c.const() - (n_now + 1)) > 1e-9:
                         okn = False
                 except NonConst:
@@ -330,10 +342,14 @@ def cog_rules(F, R, tier):
     okc = False
     full_exprs = set()
     for x in subterms(out_t):
-        if x[0] == 'op' and x[1] == 'add' and ratio in x[2]:
+        other = None
+        if x[0] == 'op' and x[1] == 'add' and ratio in x[2] and neg_num:
             other = x[2][1] if x[2][0] == ratio else x[2][0]
-            if other[0] == 'op' and other[1] == 'div' and other[2][1] == lit(2.0):
-                nump = comm(other[2][0])
+        elif x[0] == 'op' and x[1] == 'sub' and x[2][1] == ratio and not neg_num:
+            other = x[2][0]
+        if other is not None:
+            if half_of(other) is not None:
+                nump = comm(half_of(other))
                 if nump[0] == 'op' and nump[1] == 'add' and lit(1.0) in nump[2] and any(y[0] == 'op' and y[1] == 'from_int' for y in nump[2]):
                     okc = True
                     full_exprs.add(x)
